@@ -163,3 +163,129 @@ ACCESSOR_CONTRACTS = [
 import os as _os
 if _os.environ.get('PYVC_ACCESSORS'):
     CONTRACTS += ACCESSOR_CONTRACTS
+
+
+# ------------------------------------------------------------------------------------------------
+# The accessors of a chain and Chain.get_task - the entry of every graph query and of force (C10, C08, C07) - against ONE abstract
+# resolution relation: prims.c10_resolves(name, names) / c10_target(name, names), two uninterpreted functions of the query and the
+# sequence of full names.  By definition c10_resolves is `resolvable` above and c10_target the name C10.resolve returns; the link
+# between the two readings - FIND_ABS, the contract of _find_task_full_name restated over the relation - is the ONE assumed callee
+# contract here (it follows from C10.resolve's proved clauses `found` / `keyerror` by unfolding the definition; neither solver does
+# that unfolding within budget, see the note on ACCESSOR_CONTRACTS).  Everything above it is PROVED by contract, callee by callee:
+#   __contains__  answers exactly c10_resolves;   get  returns tasks[c10_target] or raises KeyError exactly when not c10_resolves;
+#   __getitem__ = get;   get_task: a name is answered by what `get` yields iff `in` holds, anything else is ValueError, a task
+#   object is answered by itself;   none of them touches the task map.
+# ------------------------------------------------------------------------------------------------
+from pyvc.prims import c10_resolves, c10_target, same_map
+
+
+def find_abs_post(task_name, tasks, result):
+    return all_of(c10_resolves(task_name, tasks), result == c10_target(task_name, tasks), any(result == t for t in tasks))
+
+
+def find_abs_raise(task_name, tasks, raised):
+    return all_of(raised == 'KeyError', not c10_resolves(task_name, tasks))
+
+
+FIND_ABS = ByContract(ret=Str, post='find_abs_post', raises=['KeyError'], raise_post='find_abs_raise',
+                      assumed_form='restated over the abstract relation c10_resolves / c10_target; its concrete form is proved as C10.resolve, the restatement is by definition and not machine-checked')
+
+
+def contains_spec(self, item):
+    return c10_resolves(item, self.tasks.keys())
+
+
+def contains_abs_post(self, item, result):
+    """`name in chain` is exactly "the name resolves" """
+    return result == c10_resolves(item, self.tasks.keys())
+
+
+def get_abs_post(self, item, result):
+    """chain.get(name) is the task stored under the full name the query resolves to"""
+    return all_of(c10_resolves(item, self.tasks.keys()), result == self.tasks[c10_target(item, self.tasks.keys())])
+
+
+def get_abs_raise(self, item, raised):
+    """... and a KeyError for a name that does not resolve - never None, never a guess"""
+    return all_of(raised == 'KeyError', not c10_resolves(item, self.tasks.keys()))
+
+
+CONTAINS = ByContract(spec='contains_spec')
+GET = ByContract(ret=ATaskU, post='get_abs_post', raises=['KeyError'], raise_post='get_abs_raise')
+
+
+def gt_str_post(self, task, result):
+    """a name is answered by the task it resolves to"""
+    return all_of(c10_resolves(task, self.tasks.keys()), result == self.tasks[c10_target(task, self.tasks.keys())])
+
+
+def gt_str_raise(self, task, raised):
+    """a name that does not resolve (no match, or an ambiguous one) is an error, never a guess and never None ..."""
+    return not c10_resolves(task, self.tasks.keys())
+
+
+def gt_str_raise_kind(raised):
+    """... and the error is the documented one (ValueError `Task ... not found`), whatever the lookup underneath raises"""
+    return raised == 'ValueError'
+
+
+def gt_obj_post(self, task, result):
+    """a task object is answered by itself, without any lookup"""
+    return result == task
+
+
+def gt_frame(self, old_self):
+    """looking a task up never changes the chain's task map"""
+    return same_map(self.tasks, old_self.tasks)
+
+
+_FIND_CALLEE = {'taskchain.task:_find_task_full_name': FIND_ABS}
+_GT_CALLEES = {'taskchain.chain:Chain.__contains__': CONTAINS, 'taskchain.chain:Chain.get': GET}
+GET_TASK_CONTRACTS = [
+    Contract(id='C10.contains.abs', target='taskchain.chain:Chain.__contains__', props={'C10': 'decisive', 'C08': 'supporting', 'C07': 'supporting'},
+             inputs={'self': acc_chain(), 'item': S(Str, 'item')}, callees=_FIND_CALLEE,
+             ensures={'same_rule': 'contains_abs_post', 'frame': 'gt_frame'}, l0=['A-dict'], searchable=False),
+    Contract(id='C10.get.abs', target='taskchain.chain:Chain.get', props={'C10': 'decisive', 'C08': 'supporting', 'C07': 'supporting'},
+             inputs={'self': acc_chain(), 'item': S(Str, 'item'), 'default': Const(None)}, callees=_FIND_CALLEE,
+             ensures={'same_rule': 'get_abs_post', 'frame': 'gt_frame'}, ensures_raise={'unresolved': 'get_abs_raise', 'frame': 'gt_frame'}, l0=['A-dict'], searchable=False),
+    Contract(id='C10.getitem', target='taskchain.chain:Chain.__getitem__', props={'C10': 'decisive'},
+             inputs={'self': acc_chain(), 'item': S(Str, 'item')}, callees=_GT_CALLEES,
+             ensures={'resolved': 'get_abs_post', 'frame': 'gt_frame'}, ensures_raise={'unresolved': 'get_abs_raise', 'frame': 'gt_frame'}, l0=['A-dict'], searchable=False),
+    Contract(id='C10.get_task.name', target='taskchain.chain:Chain.get_task', props={'C10': 'decisive', 'C08': 'supporting', 'C07': 'supporting'},
+             inputs={'self': acc_chain(), 'task': S(Str, 'task')}, callees=_GT_CALLEES,
+             ensures={'resolved': 'gt_str_post', 'frame': 'gt_frame'},
+             ensures_raise={'unresolved': 'gt_str_raise', 'error_kind': 'gt_str_raise_kind', 'frame': 'gt_frame'}, l0=['A-dict'], searchable=False),
+    Contract(id='C10.get_task.object', target='taskchain.chain:Chain.get_task', props={'C10': 'decisive', 'C08': 'supporting', 'C07': 'supporting'},
+             inputs={'self': acc_chain(), 'task': S(U('Task'), 'task')}, callees=_GT_CALLEES,
+             ensures={'itself': 'gt_obj_post', 'frame': 'gt_frame'}, l0=['A-isinstance-tag'], searchable=False),
+]
+
+
+# the input registry of a task resolves names by the same rule (a dependant's inputs, C10)
+def it_obj():
+    return Obj('taskchain.task:InputTasks', __basedict__=SymDict(Str, ATaskU, 'input_tasks'), task_list=SymList(ATaskU, 'task_list'))
+
+
+def it_contains_post(self, item, result):
+    return result == c10_resolves(item, self.keys())
+
+
+def it_get_post(self, item, result):
+    return all_of(c10_resolves(item, self.keys()), any(all_of(k == c10_target(item, self.keys()), v == result) for k, v in self.items()))
+
+
+def it_get_raise(self, item, raised):
+    return all_of(raised == 'KeyError', not c10_resolves(item, self.keys()))
+
+
+INPUT_TASKS_CONTRACTS = [
+    Contract(id='C10.inputs.contains', target='taskchain.task:InputTasks.__contains__', props={'C10': 'decisive'},
+             inputs={'self': it_obj(), 'item': S(Str, 'item')}, callees=_FIND_CALLEE,
+             ensures={'same_rule': 'it_contains_post'}, l0=['A-dict'], searchable=False),
+    Contract(id='C10.inputs.get', target='taskchain.task:InputTasks.get', props={'C10': 'decisive'},
+             inputs={'self': it_obj(), 'item': S(Str, 'item'), 'default': Const(None)}, callees=_FIND_CALLEE,
+             ensures={'same_rule': 'it_get_post'}, ensures_raise={'unresolved': 'it_get_raise'}, l0=['A-dict'], searchable=False),
+]
+if _os.environ.get('PYVC_INPUT_TASKS', '1') == '1':
+    GET_TASK_CONTRACTS += INPUT_TASKS_CONTRACTS
+CONTRACTS += GET_TASK_CONTRACTS
